@@ -280,14 +280,13 @@ def ob_c(ob):
 
 
 # ---- shared obligation: Etot of an excited active state adds this re-evaluated excitation energy to the ground-state energy ----
-from . import C16 as _C16_mod  # noqa: E402
-
-
-@obligation(PID, "d", title="[shared with C16.c] " + [e for e in __import__("engine.ob", fromlist=["REGISTRY"]).REGISTRY["C16"] if e[1] is _C16_mod.ob_c][0][3])
+@obligation(PID, "d", title='[shared with C16.c] excitation energy re-evaluated for the total energy: CIS w = X.AX, RPA w = X.(AX+BY) + Y.(BX+AY) (the quadratic form of the response matrix), for arbitrary amplitudes and sigma vectors')
 def ob_d_shared(ob):
     """Etot of an excited active state adds this re-evaluated excitation energy to the ground-state energy"""
+    from . import C16 as _m  # imported lazily: the harness modules share obligations in both directions
+
     ob.note("this obligation is the one registered as C16.c; it is also decided here because Etot of an excited active state adds this re-evaluated excitation energy to the ground-state energy")
-    _C16_mod.ob_c(ob)
+    _m.ob_c(ob)
 
 
 def replay_mo_tracking(perm_o, perm_v):
